@@ -1782,7 +1782,9 @@ func ruleStaleLen(c *Ctx) {
 					}
 					// … and must lie on EVERY path from the call to the use
 					if corrected {
-						subs := c.subtractionsOf(fn, call)
+						// only subtractions that correct this captured length count (those in the definition
+						// web of the subtrahend), not other uses of the result such as `g -= delta`
+						subs := c.webSubtractions(fi, bo.Y, call)
 						if c.reachesAvoiding(fi, call, bo, subs) {
 							corrected = false
 						}
@@ -1891,6 +1893,50 @@ func ruleOffPair(c *Ctx) {
 					}
 				}
 			}
+		}
+		if name == "WriteBlock" && len(stores) > 1 && off0 != "" {
+			// the epilogue repeated on several exits: each store adds the count that the returns it
+			// dominates report; a return not behind any store reports 0; no path passes two stores
+			okAll := true
+			why := ""
+			for _, b := range fn.Blocks {
+				r, ok := b.Instrs[len(b.Instrs)-1].(*ssa.Return)
+				if !ok {
+					continue
+				}
+				var doms []*ssa.Store
+				for _, st := range stores {
+					if st.Block() == b || st.Block().Dominates(b) {
+						doms = append(doms, st)
+					}
+				}
+				switch len(doms) {
+				case 0:
+					if !isConstZero(r.Results[0]) {
+						okAll = false
+						why = "a return that does not advance Off reports a non-zero count"
+					}
+				case 1:
+					if !fi.lin(r.Results[0]).eq(fi.lin(doms[0].Val).sub(linAtom(off0))) {
+						okAll = false
+						why = "a return reports a count different from what was added to Off"
+					}
+				default:
+					okAll = false
+					why = "Off is advanced twice on one path"
+				}
+			}
+			for i, a := range stores {
+				for j, bst := range stores {
+					if i != j && fi.instrReaches(a, bst) {
+						okAll = false
+						why = "Off is advanced twice on one path"
+					}
+				}
+			}
+			c.check(okAll, key, stores[0].Pos(), fmt.Sprintf("Off advanced by exactly the returned count on every exit (%d epilogues)", len(stores)),
+				"Off is not advanced by exactly the appended byte count that is returned ("+why+")")
+			continue
 		}
 		if len(stores) != 1 || off0 == "" {
 			c.fail(key, fn.Pos(), "expected exactly one store to Off, found %d", len(stores))
@@ -2326,6 +2372,44 @@ func (c *Ctx) subtractionsOf(fn *ssa.Function, call *ssa.Call) []ssa.Instruction
 			}
 		}
 	}
+	return out
+}
+
+// webSubtractions: the subtractions x − carrier(call) found in the definition web of v (through merges,
+// additions, subtractions and conversions).
+func (c *Ctx) webSubtractions(fi *FuncInfo, v ssa.Value, call *ssa.Call) []ssa.Instruction {
+	carriers := c.resultCarriers(fi, call)
+	var out []ssa.Instruction
+	seen := map[ssa.Value]bool{}
+	var walk func(x ssa.Value)
+	walk = func(x ssa.Value) {
+		if x == nil || seen[x] {
+			return
+		}
+		seen[x] = true
+		switch y := x.(type) {
+		case *ssa.Phi:
+			for _, e := range y.Edges {
+				walk(e)
+			}
+		case *ssa.BinOp:
+			switch y.Op {
+			case token.SUB:
+				if carriers[stripConv(y.Y)] {
+					out = append(out, y)
+				}
+				walk(y.X)
+			case token.ADD:
+				walk(y.X)
+				walk(y.Y)
+			}
+		case *ssa.Convert:
+			walk(y.X)
+		case *ssa.ChangeType:
+			walk(y.X)
+		}
+	}
+	walk(v)
 	return out
 }
 
